@@ -361,6 +361,11 @@ def run(pid, job, ctx):
             return
         where = dict(where or {})
         where['workload'] = ctx.workload
+        if ctx.workload.startswith('ws') and a and isinstance(a[0], str) and len(a) > 1 and isinstance(a[1], dict) and 'query' in a[1]:
+            # a white-space perturbation of an input is identified, for the known-findings file, by the input it was made from:
+            # the query inside the key is written with single blanks (the case keeps the exact perturbed query)
+            q = a[1]['query']
+            a = (a[0].replace(q, ' '.join(q.split())),) + tuple(a[1:])
         real_fail(mech, where, *a, **k)
     ctx.fail = fail_or_report
 
